@@ -2,3 +2,4 @@ import PexpectModel.Drv.Ex
 import PexpectModel.Drv.Launch
 import PexpectModel.Drv.Screen
 import PexpectModel.Drv.Ansi
+import PexpectModel.Drv.Forms
